@@ -8,6 +8,7 @@ package main
 //	                 `gorm.Session{…}` literal: (enclosing function, finisher, source of the first argument,
 //	                 the (field, value source) pairs of ALL Session literals of the chain in source order,
 //	                 is the call's .Error handed to db.AddError)
+//	callbackSessionLits every Session literal of association.go and callbacks/*.go: (file, function, (field, value) pairs)
 //	assocSessionLits every `gorm.Session{…}` literal of the file: (enclosing function, (field, value source) pairs)
 //
 // The join-table rows of a many2many relation are created by `….Create(joins.Interface())` in SaveAfterAssociations; the
@@ -124,6 +125,55 @@ func genAssocSessions(o *out, all []funcInfo) {
 			b.WriteString(",\n  ")
 		}
 		b.WriteString("(" + lstr(l.fn) + ", [")
+		for j, f := range l.fields {
+			if j > 0 {
+				b.WriteString(", ")
+			}
+			b.WriteString("(" + lstr(f[0]) + ", " + lstr(f[1]) + ")")
+		}
+		b.WriteString("])")
+	}
+	b.WriteString("]\n")
+	// every Session literal of association.go (package gorm: `Session{…}`) and callbacks/*.go (`gorm.Session{…}`)
+	type flit struct {
+		file, fn string
+		fields   [][2]string
+	}
+	var flits []flit
+	for _, fi := range all {
+		if fi.decl.Body == nil || !(fi.file == "association.go" || (strings.HasPrefix(fi.file, "callbacks/") && !strings.HasSuffix(fi.file, "_test.go"))) {
+			continue
+		}
+		want := "gorm.Session"
+		if fi.file == "association.go" {
+			want = "Session"
+		}
+		ast.Inspect(fi.decl.Body, func(y ast.Node) bool {
+			if cl, ok := y.(*ast.CompositeLit); ok && cl.Type != nil && src(cl.Type) == want {
+				l := flit{file: fi.file, fn: fi.name}
+				for _, el := range cl.Elts {
+					if kv, ok := el.(*ast.KeyValueExpr); ok {
+						l.fields = append(l.fields, [2]string{src(kv.Key), src(kv.Value)})
+					}
+				}
+				flits = append(flits, l)
+			}
+			return true
+		})
+	}
+	sort.SliceStable(flits, func(i, j int) bool {
+		if flits[i].file != flits[j].file {
+			return flits[i].file < flits[j].file
+		}
+		return flits[i].fn < flits[j].fn
+	})
+	b.WriteString("\n/-- association.go and callbacks/*.go: EVERY Session literal (file, enclosing function, (field, value source) pairs) -/\n")
+	b.WriteString("def callbackSessionLits : List (String × String × List (String × String)) := [")
+	for i, l := range flits {
+		if i > 0 {
+			b.WriteString(",\n  ")
+		}
+		b.WriteString("(" + lstr(l.file) + ", " + lstr(l.fn) + ", [")
 		for j, f := range l.fields {
 			if j > 0 {
 				b.WriteString(", ")
